@@ -534,6 +534,94 @@ def run_detector_alignment(ctx):
                 ctx.violation(nm, 'alignment', 'raises:' + type(e).__name__, message=str(e)[:200])
 
 
+def run_astra_vectors(ctx):
+    """The ASTRA vector conversions are plain NumPy (no ASTRA needed): every row must describe the same acquisition as the
+    geometry it was made from, in the documented format - source (or ray direction), detector *centre* d, pixel-to-pixel
+    vectors u (, v) - i.e. pixel (j[, k]) reconstructed as d + (j - (n-1)/2) u [+ ...] is the geometry's own position
+    of that detector grid point, under the documented coordinate conventions (2d: rotation by -90 degrees; 3d: (z, y, x)
+    order, u and v swapped)."""
+    try:
+        from odl.tomo.backends.astra_setup import (astra_conebeam_2d_geom_to_vec, astra_conebeam_3d_geom_to_vec,
+                                                   astra_parallel_3d_geom_to_vec)
+    except Exception as e:
+        ctx.note('astra_vectors', 'not importable: %s' % type(e).__name__)
+        return
+    rng = ctx.rng('astra-vectors')
+    R90 = np.array([[0.0, 1.0], [-1.0, 0.0]])      # rotation by -90 degrees
+    for it in range(ctx.reps(6, 30)):
+        if not ctx.mine(it):
+            continue
+        apart = odl.uniform_partition(0, 2 * np.pi, 5)
+        lo = float(rng.uniform(-2.0, -0.2))
+        hi = lo + float(rng.uniform(0.5, 3.0))         # detector ranges that are NOT symmetric around 0
+        n1 = int(rng.integers(2, 7))
+        d1 = odl.uniform_partition(lo, hi, n1)
+        lo2 = rng.uniform(-2.0, -0.2, size=2)
+        hi2 = lo2 + rng.uniform(0.5, 3.0, size=2)
+        n2 = tuple(int(k) for k in rng.integers(2, 6, size=2))
+        d2 = odl.uniform_partition(lo2, hi2, n2)
+        tr2 = rng.normal(size=2) if it % 2 else None
+        tr3 = rng.normal(size=3) if it % 2 else None
+        kw2 = {} if tr2 is None else {'translation': tr2}
+        kw3 = {} if tr3 is None else {'translation': tr3}
+        geoms = [('FanBeamGeometry', lambda: TOMO.FanBeamGeometry(apart, d1, src_radius=rng.uniform(1, 3), det_radius=rng.uniform(1, 3),
+                                                                 src_to_det_init=rvec(rng, 2), **kw2), astra_conebeam_2d_geom_to_vec, 2),
+                 ('FanBeamGeometry/sliced', lambda: TOMO.FanBeamGeometry(apart, odl.uniform_partition(-1.5, 1.5, 8), 2, 3)[1:4, 5:], astra_conebeam_2d_geom_to_vec, 2),
+                 ('ConeBeamGeometry', lambda: TOMO.ConeBeamGeometry(apart, d2, src_radius=2, det_radius=3, axis=rvec(rng, 3), **kw3), astra_conebeam_3d_geom_to_vec, 3),
+                 ('ConeBeamGeometry/helical', lambda: TOMO.ConeBeamGeometry(odl.uniform_partition(0, 4 * np.pi, 6), d2, src_radius=2, det_radius=3,
+                                                                           pitch=rng.uniform(-2, 2), **kw3), astra_conebeam_3d_geom_to_vec, 3),
+                 ('Parallel3dAxisGeometry', lambda: TOMO.Parallel3dAxisGeometry(apart, d2, axis=rvec(rng, 3), **kw3), astra_parallel_3d_geom_to_vec, 3)]
+        for name, mk, conv, nd in geoms:
+            ctx.ev('astra-vectors')
+            ctx.case('astra-vectors;' + name, it)
+            comp = conv.__name__
+            cfg = name
+            try:
+                g = mk()
+                V = conv(g)
+            except Exception as e:
+                ctx.violation(comp, cfg, 'raises:' + type(e).__name__, message=str(e)[:200])
+                continue
+            try:
+                angles = g.angles
+                grid = g.det_partition.grid
+                if V.shape != (len(angles), 6 if nd == 2 else 12):
+                    ctx.violation(comp, cfg, 'shape', got=V.shape)
+                    continue
+                bad = None
+                for i, a in enumerate(angles):
+                    if nd == 2:
+                        src, d, u = V[i, 0:2], V[i, 2:4], V[i, 4:6]
+                        if not np.allclose(src, R90 @ g.src_position(a), atol=1e-10):
+                            bad = 'source'
+                        cv = grid.coord_vectors[0]
+                        for j in (0, len(cv) - 1, len(cv) // 2):
+                            pos = d + (j - (len(cv) - 1) / 2.0) * u
+                            if not np.allclose(pos, R90 @ g.det_point_position(a, cv[j]), atol=1e-10):
+                                bad = 'pixel-position'
+                    else:
+                        T = [V[i, 3 * k:3 * k + 3][::-1] for k in range(4)]     # back to (x, y, z)
+                        first, d, u, v = T
+                        mid = g.det_params.mid_pt
+                        if conv is astra_parallel_3d_geom_to_vec:
+                            if not np.allclose(first, -g.det_to_src(a, mid), atol=1e-10):
+                                bad = 'ray-direction'
+                        elif not np.allclose(first, g.src_position(a), atol=1e-10):
+                            bad = 'source'
+                        c0, c1 = grid.coord_vectors
+                        for j, k in ((0, 0), (len(c0) - 1, 0), (0, len(c1) - 1), (len(c0) - 1, len(c1) - 1)):
+                            # u = ODL detector axis 1 (pixel (0,0)->(0,1)), v = ODL detector axis 0
+                            pos = d + (j - (len(c0) - 1) / 2.0) * v + (k - (len(c1) - 1) / 2.0) * u
+                            if not np.allclose(pos, g.det_point_position(a, (c0[j], c1[k])), atol=1e-10):
+                                bad = 'pixel-position'
+                    if bad:
+                        break
+                if bad:
+                    ctx.violation(comp, cfg, 'vectors-do-not-describe-the-geometry:' + bad)
+            except Exception as e:
+                ctx.violation(comp, cfg, 'raises:' + type(e).__name__, message=str(e)[:200], probe='reconstruction')
+
+
 def sheared(rng, a, b):
     """Unit vector at 30..80 degrees to the unit vector ``a`` in the plane of (a, b): flat 2d detectors only require
     linearly independent axes."""
@@ -781,7 +869,7 @@ def run(ctx):
                      'kinds x {translation, shift functions, init matrices, helical pitch} are enumerated, the seed varies vectors, '
                      'angles and detector parameters (incl. sheared flat detectors and axis-aligned curved ones); evaluation forms {scalar, '
                      'array, broadcast}; distinct = distinct case keys')
-    ctx.note('not_executable', 'astra_setup conversions need ASTRA, which is not installed')
+    ctx.note('not_executable', 'astra_setup: only the *_geom_to_vec conversions are plain NumPy; everything that builds ASTRA objects needs ASTRA, which is not installed')
     from odl.tomo.geometry import geometry as G, parallel as Pm, conebeam as Cm
     cov = cover.Cover()
     for mod, names in ((G, ('Geometry', 'DivergentBeamGeometry', 'AxisOrientedGeometry')),
@@ -806,6 +894,7 @@ def run(ctx):
     run_frommatrix(ctx)
     run_detectors(ctx)
     run_detector_alignment(ctx)
+    run_astra_vectors(ctx)
     run_factories(ctx)
     run_utilities(ctx)
     cov.disarm()
